@@ -276,9 +276,11 @@ def rule_B4(ctx):
                    loc=f.loc(ext))
         wr_ok = False
         if fname == "sbuf_mem":
+            from ..util import resolve_local
             for c in f.calls("memcpy"):
-                d = key(strip_casts(c["args"][0]), ren)
-                if d in ("(sbuf->s+sbuf->s_n)",) and key(strip_casts(c["args"][2])) == f.params[2]["name"]:
+                d = key(resolve_local(f, c["args"][0]), ren)
+                if d in ("(sbuf->s+sbuf->s_n)", "(&sbuf->s[sbuf->s_n])") and \
+                        key(resolve_local(f, c["args"][2])) == f.params[2]["name"]:
                     wr_ok = True
             adv = [n for n, lv, op, rhs in stores(f.body) if lv_field(lv) and lv_field(lv)[1] == "s_n"
                    and op == "+=" and key(strip_casts(rhs)) == f.params[2]["name"]]
@@ -290,7 +292,7 @@ def rule_B4(ctx):
         if wr_ok:
             ctx.ok(fname, "writes at s + s_n and advances s_n by the written length")
         else:
-            ctx.violation(fname, "write position", "the text is not written at s + s_n / s_n not advanced by it")
+            ctx.inconclusive(fname, "write position", "store of the text at s + s_n / advance of s_n not recognised")
         # the extension dominates the write
     # sbuf_buf: terminator only after allocation
     f = prog.func("sbuf_buf", file="sbuf.c")
@@ -826,10 +828,28 @@ def rule_I1(ctx):
                         targets.append((n_, "end of loop body"))
                 else:
                     latches += [q for q in cfg.blocks[b].pred if q in body and q != h]
+        def call_writes(call, f=f, p=p):
+            fn = call.get("fn")
+            g = prog.resolve(f, fn) if fn else None
+            if g is None or g.name in ("lbuf_replace", "lbuf_opt") or g.file != "lbuf.c":
+                return []
+            # which argument carries the struct?
+            out = []
+            for i_, a in enumerate(call["args"]):
+                if key(strip_casts(a)) == p and i_ < len(g.params):
+                    gp = g.params[i_]["name"]
+                    for n_, lv_, op_, rhs_ in stores(g.body):
+                        lf_ = lv_field(lv_)
+                        if lf_ and lf_[0] == "lbuf" and lf_[1] in FIELDS and not lf_[2]:
+                            out.append("%s->%s" % (p, lf_[1]))
+            return sorted(set(out))
+
         for tgt, where in targets:
             sts = path_states(f, tgt["id"], init_hyps=init, header_hyps=header_hyps,
-                              assume_fields=FIELDS, base_case=(where == "loop entry"))
+                              assume_fields=FIELDS, base_case=(where == "loop entry"),
+                              call_writes=call_writes)
             bad = None
+            undecided = None
             for subst, hyps, items in sts:
                 # the target event itself may be a store (end of loop body): apply it
                 post = dict(subst)
@@ -846,10 +866,18 @@ def rule_I1(ctx):
                     flat = [h_ for h_ in hyps if not isinstance(h_, tuple)]
                     v = prove_le(a, b, hyps + nonneg_atoms(flat + [a, b]))
                     if v != PROVEN:
-                        bad = (gname, v, items)
+                        if "__havoc__" in subst:
+                            undecided = (gname, v, items)
+                        else:
+                            bad = (gname, v, items)
                         break
                 if bad:
                     break
+            if undecided and not bad:
+                ctx.inconclusive(fname, "history/line-table invariant at the %s" % where,
+                                 "%s depends on what a helper called on the way does to the fields "
+                                 "(no summary of it): not decided" % undecided[0], f.loc(tgt))
+                continue
             if bad:
                 desc = ", ".join("%s=%s" % (key(f.nodes[x[1]])[:28], x[2]) for x in bad[2] if x[0] == "br")
                 ctx.violation(fname, "history/line-table invariant at the %s" % where,
@@ -877,8 +905,16 @@ def rule_I1(ctx):
         if lv_field(lv) and lv_field(lv)[1] == "ln_n" and lv["k"] == "member":
             v, hy = prove_index(f, n, Lin({"%s->ln_n" % p: 1}) + linearize(strip_casts(rhs)) + Lin(k=1),
                                 Lin({"%s->ln_sz" % p: 1}))
+            helper = [c for c in f.calls() if c.get("fn") and prog.resolve(f, c["fn"]) is not None and
+                      prog.resolve(f, c["fn"]).file == "lbuf.c" and any(
+                          lv_field(lv2) and lv_field(lv2)[1] == "ln_sz"
+                          for n2, lv2, op2, r2 in stores(prog.resolve(f, c["fn"]).body))]
             if v == PROVEN:
                 ctx.ok("lbuf_replace", "after the splice ln_n < ln_sz (growth loop exit dominates the store)", loc=f.loc(n))
+            elif helper:
+                ctx.inconclusive("lbuf_replace", "line table keeps a spare slot",
+                                 "the growth moved into %s(): its post-condition is not summarised" % helper[0]["fn"],
+                                 f.loc(n))
             else:
                 ctx.violation("lbuf_replace", "line table keeps a spare slot",
                               "the store `%s` is not dominated by a growth test that leaves ln_n < ln_sz (%s)" % (
